@@ -148,9 +148,16 @@ fn consolidate_pass_lines(
             continue;
         }
 
-        line.parent = line.parent.map(|parent| LineParent {
-            line_index: mapped_line_indices[parent.line_index],
-            global_token_index: parent.global_token_index,
+        // On malformed input a line's parent may be itself, a later line, or an empty line; none of
+        // those can be mapped, so such a line is kept without a parent.
+        line.parent = line.parent.and_then(|parent| {
+            Some(LineParent {
+                line_index: mapped_line_indices
+                    .get(parent.line_index)
+                    .copied()
+                    .filter(|&line_index| line_index != usize::MAX)?,
+                global_token_index: parent.global_token_index,
+            })
         });
 
         let new_line_index = result_lines.len();
